@@ -144,9 +144,13 @@ func genProgram(rt *rapid.T, allowFail bool) Case {
 	if allowFail && rapid.IntRange(0, 2).Draw(rt, "failing") == 0 {
 		failing = rapid.IntRange(1, n).Draw(rt, "failThread")
 	}
+	// one range value iterated by every thread: a global, and a local of main that is passed to every spawn
+	useRange := rapid.Bool().Draw(rt, "sharedRange")
+	rangeLen := rapid.IntRange(3, 40).Draw(rt, "rangeLen")
 	var b strings.Builder
 	b.WriteString("let cnt = 0;\nlet ro = 41;\nlet shared = [0];\n")
-	fmt.Fprintf(&b, "fn w(id: int, tag: str, n: int) {\n    let k = 0;\n    while k < n {\n        k += 1;\n")
+	fmt.Fprintf(&b, "let rg = 0..%d;\n", rangeLen)
+	fmt.Fprintf(&b, "fn w(id: int, tag: str, n: int, rp: range) {\n    let k = 0;\n    while k < n {\n        k += 1;\n")
 	if useCounter {
 		b.WriteString("        cnt += 1;\n")
 	}
@@ -159,8 +163,14 @@ func genProgram(rt *rapid.T, allowFail bool) Case {
 	if failing > 0 {
 		fmt.Fprintf(&b, "        if id == %d && k == %d { let z = 0; println(1 / z); }\n", failing, (iters+1)/2)
 	}
-	b.WriteString("        println(\"T\" + id.to_string() + \":\" + tag + \":\" + k.to_string());\n    }\n}\n")
+	b.WriteString("        println(\"T\" + id.to_string() + \":\" + tag + \":\" + k.to_string());\n    }\n")
+	if useRange {
+		b.WriteString("    let sg = 0;\n    let ng = 0;\n    for q in rg { sg += q; ng += 1; }\n    let sp = 0;\n    for q in rp { sp += q; }\n")
+		b.WriteString("    println(\"R\" + id.to_string() + \":\" + sg.to_string() + \":\" + ng.to_string() + \":\" + sp.to_string());\n")
+	}
+	b.WriteString("}\n")
 	b.WriteString("fn main() {\n")
+	fmt.Fprintf(&b, "    let rl = 1..=%d;\n", rangeLen)
 	var expect []string
 	tags := []string{"a", "bb", "c-c", "dd dd", "e", "f", "g", "h"}
 	mainFirst := rapid.Bool().Draw(rt, "mainFinishesFirst")
@@ -170,19 +180,23 @@ func genProgram(rt *rapid.T, allowFail bool) Case {
 		// ... whatever kind of place the argument was read from: a variable, an object field, a list element
 		switch form := rapid.IntRange(0, 3).Draw(rt, "argForm"); form {
 		case 0:
-			fmt.Fprintf(&b, "    let t%d = %q;\n    let n%d = %d;\n    spawn w(%d, t%d, n%d);\n    t%d = \"CHANGED\";\n    n%d = 0;\n", i, tag, i, iters, i, i, i, i, i)
+			fmt.Fprintf(&b, "    let t%d = %q;\n    let n%d = %d;\n    spawn w(%d, t%d, n%d, rl);\n    t%d = \"CHANGED\";\n    n%d = 0;\n", i, tag, i, iters, i, i, i, i, i)
 		case 1:
 			pk.Class("spawn-arg:field")
-			fmt.Fprintf(&b, "    let o%d = new { t: %q, n: %d, id: %d };\n    spawn w(o%d.id, o%d.t, o%d.n);\n    o%d.t = \"CHANGED\";\n    o%d.n = 0;\n    o%d.id += 100;\n", i, tag, iters, i, i, i, i, i, i, i)
+			fmt.Fprintf(&b, "    let o%d = new { t: %q, n: %d, id: %d };\n    spawn w(o%d.id, o%d.t, o%d.n, rl);\n    o%d.t = \"CHANGED\";\n    o%d.n = 0;\n    o%d.id += 100;\n", i, tag, iters, i, i, i, i, i, i, i)
 		case 2:
 			pk.Class("spawn-arg:element")
-			fmt.Fprintf(&b, "    let lt%d = [%q, \"x\"];\n    let ln%d = [%d, %d];\n    spawn w(ln%d[1], lt%d[0], ln%d[-2]);\n    lt%d[0] = \"CHANGED\";\n    ln%d[0] = 0;\n    ln%d[1] = -1;\n", i, tag, i, iters, i, i, i, i, i, i, i)
+			fmt.Fprintf(&b, "    let lt%d = [%q, \"x\"];\n    let ln%d = [%d, %d];\n    spawn w(ln%d[1], lt%d[0], ln%d[-2], rl);\n    lt%d[0] = \"CHANGED\";\n    ln%d[0] = 0;\n    ln%d[1] = -1;\n", i, tag, i, iters, i, i, i, i, i, i, i)
 		default:
 			pk.Class("spawn-arg:nested")
-			fmt.Fprintf(&b, "    let d%d = new { inner: new { t: %q }, ns: [%d] };\n    spawn w(%d, d%d.inner.t, d%d.ns[0]);\n    d%d.inner.t = \"CHANGED\";\n    d%d.ns[0] = 0;\n", i, tag, iters, i, i, i, i, i)
+			fmt.Fprintf(&b, "    let d%d = new { inner: new { t: %q }, ns: [%d] };\n    spawn w(%d, d%d.inner.t, d%d.ns[0], rl);\n    d%d.inner.t = \"CHANGED\";\n    d%d.ns[0] = 0;\n", i, tag, iters, i, i, i, i, i)
 		}
 		for k := 1; k <= iters; k++ {
 			expect = append(expect, fmt.Sprintf("T%d:%s:%d\n", i, tag, k))
+		}
+		if useRange {
+			pk.Class("shared-range")
+			expect = append(expect, fmt.Sprintf("R%d:%d:%d:%d\n", i, rangeLen*(rangeLen-1)/2, rangeLen, rangeLen*(rangeLen+1)/2))
 		}
 	}
 	if !mainFirst {
